@@ -29,7 +29,7 @@ RULE = (
 )
 BOUNDS = {
     "quick": "8 fixtures; regions: each parse-info block (9 bytes after the prefix), 2 seeded 1-byte windows per picture/fragment unit, every second byte of the sequence header of hq_min, the 4 prefix bytes, truncation anywhere; declared sizes <= dec.RESOURCE_BOUNDS",
-    "thorough": "all fixtures; the C02 quick region set at full width (2 seeded 2-byte windows per picture/fragment unit, every 2-byte window over the sequence header of 2 fixtures)",
+    "thorough": "all fixtures; the C02 quick region set (2 seeded windows per picture/fragment unit, every window over the sequence header of 2 fixtures), windows 2 bytes wide on 4 fixtures and 1 byte elsewhere",
 }
 OUTSIDE = (
     "regions larger than the bound; streams declaring sizes above the resource bounds; text rendering of symbolic values is "
@@ -48,6 +48,7 @@ ENGINE_OPTS = {"max_decisions": 6000, "format_shadow": True}
 REPLAYS_PER_LABEL = 2
 PATTERN = "pic_%d.raw"
 
+WIDE_FIXTURES = ["hq_min", "ld_min", "hq_fields", "hq_frag"]  # thorough: 2-byte windows inside data units on these, 1-byte elsewhere
 QUICK_FIXTURES = ["hq_min", "ld_min", "hq_frag", "ld_frag", "hq_fields", "hq_padaux_payload", "two_sequences", "neg_pic_then_fragslice"]
 
 
@@ -68,7 +69,7 @@ def tasks(tier, seed):
         for label, regions in c02._regions_for(name, meta, data, "quick", rnd):  # C02's thorough region set is beyond this check's budget (two decoder runs per path)
             if "+" in label:
                 continue
-            if tier == "quick" and label.startswith("u"):
+            if label.startswith("u") and (tier == "quick" or name not in WIDE_FIXTURES):
                 if name == "hq_min" and label.startswith("u0@") and int(label.split("@")[1]) % 2:
                     continue
                 regions = [(s, 1) for (s, n) in regions]  # quick: one-byte windows inside data units
